@@ -52,6 +52,12 @@ func (c *Ctx) modsOf(fn *ssa.Function) *ModSet {
 	modVisiting[fn] = true
 	defer delete(modVisiting, fn)
 	m := newModSet()
+	if sp := c.specOf(fn); sp != nil {
+		// ghost variables the contract assigns (site clauses, exit updates)
+		for _, g := range specGhostWrites(sp) {
+			m.add("ghost$" + g)
+		}
+	}
 	if sp := c.specOf(fn); sp != nil && sp.HasMod {
 		for _, it := range sp.Modifies {
 			for _, h := range c.resolveHeapNames(it, fn) {
